@@ -141,7 +141,15 @@ def get_max_angle(
     _, ang_max = config.scales.scales.get_angle_radian(
         min_redshift, cosmology=config.cosmology
     )
-    return AngularDistances(ang_max.max())
+    max_angle = ang_max.max()
+    # pairs are counted at the bin centers, where the angle can be larger (bin
+    # centers below the redshift limit, non-monotonic angular diameter distance)
+    for zmid in config.binning.binning.mids:
+        _, ang_max = config.scales.scales.get_angle_radian(
+            zmid, cosmology=config.cosmology
+        )
+        max_angle = max(max_angle, ang_max.max())
+    return AngularDistances(max_angle)
 
 
 class PatchLinkage:
